@@ -2,7 +2,7 @@
    Directives: ExtrOcamlBasic only. *)
 Require Extraction.
 Require Import ExtrOcamlBasic.
-From OrdV Require Import Base.Prelude Index.SatIndex Index.Address.
+From OrdV Require Import Base.Prelude Index.SatIndex Index.SatCache Index.Address.
 Cd "../extract/gen".
 Extraction "x_satsidx.ml" run_C01 run_C02 run_C17.
 Cd "../../coq".
